@@ -95,6 +95,10 @@ package caseconversion
 //@   safety C16 C19
 //@   loop 0:
 //@     invariant 0 <= lastBoundary && lastBoundary <= len(s)
+//@   at call fmt.Errorf("converting case of %q: Only:
+//@     assert C19_only_runes_outside_the_alphabet_are_rejected: !isLetterR(char) && !isDigitR(char) && char != 95
+//@   at call fmt.Errorf("converting case of %q: Case_Preserving:
+//@     assert C19_only_a_leading_digit_or_invalid_text_is_rejected: r == 65533 || isDigitR(r)
 
 //@ func caseconversion.aggregateStringLen(words) (total)
 //@   props C19
